@@ -2,7 +2,12 @@
 EXTENDS Filters, Json
 CoefsQ == {-1, 0, 2}
 InputsQ == {-2, 0, 1}
+InputsBig == {-1, 2}
 CoefsT == {-2, -1, 0, 1, 2}
 InputsT == {-2, -1, 0, 1, 3}
+\* long delay lines (shifting loops over many cells) for a few fixed coefficient vectors
+BigNums == {<<1, -1, 2, 0, 1, -2, 1, 1, -1>>, <<2, 0, 0, 0, 0, 0, 0, 0, 1>>, <<1>>}
+BigDens == {<<0, 1, 0, -1, 0, 0, 1, 0>>, <<>>, <<0, 0, 0, 0, 0, 0, 0, 0, 0, 0, 0, 0, 0, 0, 0, 0, 1>>}
+InitBig == num \in BigNums /\ den \in BigDens /\ hist = <<>>
 Emit == IF Len(hist') = HistLen THEN PrintT(ToJson(<<9090909, Len(num), Len(den), Len(hist'), num, den, hist', TfDef(num, den, hist')>>)) ELSE TRUE
 =============================================================================
